@@ -153,7 +153,7 @@ theorem C27_label_spec_partial (adds : List (Nat × Label)) (idx s : Nat) (l : L
       .label (l.pfx.getD [] ++ charsToBytes (Spec.number l.style (l.start + (idx - s)))) := by
   rw [C27_getLabel_greatest_start adds idx s l hm hle hmax]
   rw [formatLabel_eq]
-  have hnot : ¬ (l.start + (idx - s) > U32_MAX) := by omega
+  have hnot : min (l.start + (idx - s)) U32_MAX = l.start + (idx - s) := Nat.min_eq_left hfit
   rcases hstyle with h | h | h | ⟨h | h, h1, h27⟩
   · simp [h, hnot, (C27_format_roman _).1]
   · simp [h, hnot, (C27_format_roman _).2]
